@@ -11,7 +11,9 @@ CONSTANTS
   KeepFoundBlock = FALSE
   SilentSeekHit = FALSE
   EarlyReturnOnForeign = FALSE
+  KeepCurAfterKeep = FALSE
   KeepOnGet = TRUE
   Foreign = {3}
+  RealCache = FALSE
 INVARIANTS NoPanic DataIdentity ErrorsTrue NoStaleMapping CacheBounded Capacities NoLeak
 CHECK_DEADLOCK TRUE
